@@ -40,7 +40,8 @@ def gen_atomistic(R, tier):
     defs = []
     feats = {'atomistic'}
     for f in range(nfr):
-        m, cname = molgen.gen_mol_class(R)
+        # (a quarter of the molecules: sulfur next to aromatic rings, 'Sc' / 'Sn' letter pairs in the text)
+        m, cname = molgen.gen_mol_class(R, classes=[c for c in molgen.MOL_CLASSES if c['name'] == 'thioaryl'] if R.chance(0.25) else None)
         d = defaultdict(list)
         dens = R.choice([0.2, 0.5])
         for i in range(len(m.atoms)):
